@@ -336,8 +336,9 @@ cdef _deserialize_map(itemlen_t dummy_version,
 
     _unpack_len[itemlen_t](buf, 0, &numelements)
     offset = sizeof(itemlen_t)
-    themap = util.OrderedMapSerializedKey(key_type, protocol_version)
     protocol_version = max(3, protocol_version)
+    # keys are looked up by re-serializing them: use the layout they arrived in
+    themap = util.OrderedMapSerializedKey(key_type, protocol_version)
     for _ in range(numelements):
         subelem[itemlen_t](buf, &key_buf, &offset, dummy_version)
         subelem[itemlen_t](buf, &val_buf, &offset, numelements)
